@@ -43,6 +43,15 @@ SupCause(ev, m) ==
   \/ (ev.nodes[m].kindname = "typedef_diff" /\ \E c \in Children(ev, m) : ev.nodes[c].hasChanges /\ ev.nodes[c].sup)
   \/ (ev.nodes[m].kindname = "function_decl_diff" /\ \E c \in Children(ev, m) : ev.nodes[c].lsup)
 SupUnexplained(ev) == {n \in Nodes(ev) : ev.nodes[n].sup /\ ~\E m \in SameClass(ev, n) : SupCause(ev, m)}
+(* DiffTree!Red, soundness direction (redundancy_marking_visitor): a node carries REDUNDANT only if it repeats a class of            *)
+(* equivalence met earlier in the traversal (the dump lists nodes in traversal order; an ancestor of the same class -- a recursive  *)
+(* type -- counts), or -- visit_end -- it has a changed child and none of its changed children is still to be reported.              *)
+RedCause(ev, n) ==
+  \/ ev.nodes[n].cls # 0 /\ \E m \in 1..(n - 1) : ev.nodes[m].cls = ev.nodes[n].cls
+  \/ /\ \E c \in Children(ev, n) : ev.nodes[c].hasChanges
+     /\ \A c \in Children(ev, n) : ev.nodes[c].hasChanges => (ev.nodes[c].filtered \/ ev.nodes[c].red)
+RedUnexplained(ev) == {n \in Nodes(ev) : ev.nodes[n].red /\ ~RedCause(ev, n)}
+
 (* frame (C22 at tree level): no node matched by a specification => no node marked *)
 FrameBroken(ev) == (\A n \in Nodes(ev) : ~ev.nodes[n].lsup) /\ (\E n \in Nodes(ev) : ev.nodes[n].sup)
 
@@ -94,6 +103,7 @@ Verdict(ev) ==
   ELSE IF \E n \in Nodes(ev) : ~(OCat(ev, n) \subseteq CatOf(ev, n)) THEN "bad:category-not-from-self-or-children"
   ELSE IF FrameBroken(ev) THEN "bad:suppressed-mark-although-nothing-matched"
   ELSE IF SupUnexplained(ev) # {} THEN "bad:suppressed-mark-without-cause"
+  ELSE IF RedUnexplained(ev) # {} THEN "bad:redundant-mark-without-cause"
   ELSE IF \E n \in Nodes(ev) : ev.nodes[n].hasChanges /\ (ev.nodes[n].filtered # FilteredRule(ev, n)) THEN "bad:is-filtered-out-disagrees-with-rule"
   ELSE IF ev.leaf THEN LeafVerdict(ev)
   ELSE IF ev.sumChangedFns # NetChanged(ev, "fn") \/ ev.sumFilteredFns # Cardinality(FilteredRoots(ev, "fn")) THEN "bad:function-summary-disagrees-with-tree"
